@@ -7,6 +7,7 @@ import (
 	"os"
 	"runtime/debug"
 	"strconv"
+	"time"
 
 	"verif/checks"
 	"verif/internal/ev"
@@ -87,6 +88,7 @@ func main() {
 			}
 		}
 		r := ev.New(c.ID, c.Level, tier)
+		r.Watch(4 * time.Minute)
 		c.Run(r)
 		os.Exit(r.Finish())
 	case "replay":
